@@ -64,9 +64,13 @@ func c01TakesArg(kind int) bool { return kind != 0 && kind != 2 && kind != 5 }
 // symbolically chosen spellings and positions.
 func H_C01_denote(v *V) {
 	n := v.Shape("n")
-	depth := v.Choice(3) // 0: no command, 1: cmd, 2: cmd sub
-	// configuration variants (delimiter x parser options; not multiplied out)
-	cfg := v.Choice(3)
+	same := v.Shape("same") == 1 // all occurrences mention one option, in one spelling, at its own level
+	depth, cfg := 2, 0
+	if !same {
+		depth = v.Choice(3) // 0: no command, 1: cmd, 2: cmd sub
+		// configuration variants (delimiter x parser options; not multiplied out)
+		cfg = v.Choice(3)
+	}
 	delim := []string{".", "-", "."}[cfg]
 	opts := []Options{None, HelpFlag | PassDoubleDash, IgnoreUnknown}[cfg]
 	d := &c01Root{}
@@ -93,6 +97,7 @@ func H_C01_denote(v *V) {
 	mapKeys := []string{}
 	mapExp := map[string]string{}
 	slots := make([][]string, depth+1)
+	fixed, fixedSp := -1, -1
 	for k := 0; k < n; k++ {
 		// choose an in-scope option
 		var cand []int
@@ -101,7 +106,13 @@ func H_C01_denote(v *V) {
 				cand = append(cand, i)
 			}
 		}
-		oi := cand[v.Choice(len(cand))]
+		oi := fixed
+		if oi < 0 {
+			oi = cand[v.Choice(len(cand))]
+			if same {
+				fixed = oi
+			}
+		}
 		o := c01Opts[oi]
 		long := o.long
 		if delim == "-" {
@@ -114,11 +125,14 @@ func H_C01_denote(v *V) {
 				}
 			}
 		}
-		slot := o.level + v.Choice(depth-o.level+1)
+		slot := o.level
+		if !same {
+			slot = o.level + v.Choice(depth-o.level+1)
+		}
 		if !c01TakesArg(o.kind) {
 			occs = append(occs, occurrence{oi: oi, slot: slot})
 			tok := "--" + long
-			if o.short != "" && (long == "" || v.Choice(2) == 1) {
+			if o.short != "" && (long == "" || (!same && v.Choice(2) == 1)) {
 				tok = "-" + o.short
 			}
 			slots[slot] = append(slots[slot], tok)
@@ -147,7 +161,13 @@ func H_C01_denote(v *V) {
 		if long != "" {
 			sps = append(sps, spLongEq, spLongSep)
 		}
-		sp := sps[v.Choice(len(sps))]
+		sp := fixedSp
+		if sp < 0 {
+			sp = sps[v.Choice(len(sps))]
+			if same {
+				fixedSp = sp
+			}
+		}
 		switch sp {
 		case spShortAttached:
 			v.Assume(len(V) > 0 && V[0] != '=')
